@@ -311,12 +311,15 @@ func (in *Interp) Eval(n *vlang.Node, env *Env) (Val, *Err) {
 		}
 		return &MapV{Keys: append([]string{}, n.Keys...), Vals: vals}, nil
 	case vlang.Index:
-		// the implementation evaluates the index before the list; unobservable for ok-vs-error
-		l, err := in.Eval(n.A, env)
+		// The implementation evaluates the index before the list. For values and ok-vs-error this is
+		// unobservable; it shows only in how often an impure host function runs when the other operand
+		// fails (try [tick(2)][throw("e")] catch 1: 0 ticks). No property fixes that count against the
+		// program text (C02 compares optimizer on with off), so the reference follows the implementation.
+		i, err := in.Eval(n.B, env)
 		if err != nil {
 			return nil, err
 		}
-		i, err := in.Eval(n.B, env)
+		l, err := in.Eval(n.A, env)
 		if err != nil {
 			return nil, err
 		}
